@@ -29,6 +29,7 @@
 import TypedpyModel.Lemmas.Stub
 import TypedpyModel.Lemmas.StubSort
 import TypedpyModel.Lemmas.StubText
+import TypedpyModel.Lemmas.StubLex
 import TypedpyModel.Lemmas.StubDefine
 namespace Typedpy.C16
 open Typedpy.Stub
@@ -490,6 +491,24 @@ theorem parse_rejects_examples :
     (lexPy "def f(a, /, b=None, *args, c, **kw) -> dict[str, int]: ...").bind parseDef =
       some ⟨"f", [⟨"a", .po, false⟩, ⟨"b", .pk, true⟩, ⟨"args", .va, false⟩, ⟨"c", .ko, false⟩, ⟨"kw", .vk, false⟩]⟩ := by
   decide
+
+/-! ### the character level -/
+
+/-- printing any token sequence whose names are identifier-shaped (one blank after each token) and lexing the
+    characters gives the tokens back: every token-level acceptance theorem above is a theorem about text -/
+theorem lex_render_roundtrip (ts : List Tok) (h : ∀ t ∈ ts, tokLexOk t = true) :
+    lexPy (renderText ts) = some ts :=
+  c16_lexPy_render ts h
+
+/-- the TEXT of the generated `__init__` of every class of every hierarchy is lexed and parsed into exactly the
+    modelled parameter list -/
+theorem stub_init_text_accepted (dflt apd : Bool) (c : ClassInfo) (anns : String → Ann)
+    (h : textDomain anns (stubInit dflt apd c).params = true) :
+    (lexPy (renderText (initToks anns (stubInit dflt apd c)))).bind parseDef =
+      some ⟨"__init__", ⟨"self", .pk, false⟩ ::
+        ((stubInit dflt apd c).params.map pkInfo ++ kwInfos (stubInit dflt apd c).kw)⟩ := by
+  rw [c16_lexPy_render _ (c16_lexOk_initToks anns _ h)]
+  exact stub_init_text_parses dflt apd c anns h
 
 /-! ### a stub generated under another `additional_properties_default` than the runtime's (`apd ≠ dflt`) -/
 
